@@ -33,8 +33,8 @@ def _fn(short: str) -> str:
     return f"{P[mod]}::{q}"
 
 
-def G(props: str, fn: str, kind: str, target: str, needs: list, why: str, min: int = 1, max: int | None = None, rule: str = "RG", forbid: tuple = (), exact: bool = False) -> Gate:
-    return Gate(tuple(props.split()), _fn(fn), kind, target, needs, why, min, max, rule, tuple(forbid), exact)
+def G(props: str, fn: str, kind: str, target: str, needs: list, why: str, min: int = 1, max: int | None = None, rule: str = "RG", forbid: tuple = (), exact: bool = False, nonnull: str | None = None) -> Gate:
+    return Gate(tuple(props.split()), _fn(fn), kind, target, needs, why, min, max, rule, tuple(forbid), exact, nonnull)
 
 
 def F(props: str, fn: str, kind: str, target: str, form: str, why: str, min: int = 1) -> Form:
@@ -110,6 +110,7 @@ TABLE: list = [
     G("C04 C13", "tr::Transform.add_mark.iteratee", "stmt", r"^adding\.to = end$", ["adding", "adding.to == start", "not mark.is_in_set(marks)", "parent", "parent.type.allows_mark_type(mark.type)"], "the pending add step is extended only over the directly adjacent node, where the mark is absent and allowed"),
     G("C04 C13", "tr::Transform.add_mark.iteratee", "stmt", r"^adding = AddMarkStep\(start, end, mark\)$", ["not mark.is_in_set(marks)", "parent", "parent.type.allows_mark_type(mark.type)"], "a mark is added only where it is absent and the parent allows it"),
     G("C04 C13", "tr::Transform.add_mark.iteratee", "stmt", r"^removing = RemoveMarkStep\(start, end, marks\[i\]\)$", ["not marks[i].is_in_set(new_set)"], "only marks displaced by the new mark are removed"),
+    G("C13", "tr::Transform.remove_mark.iteratee", "stmt", r"^found\['to'\] = end$", ["re:truthy\\(style\\.eq\\(.*\\)\\)|truthy\\(.*\\.eq\\(style\\)\\)", "re:.*\\['step'\\] == step - 1"], "a matched range is extended only from the directly preceding inline node and for an equal mark (type and attributes)", nonnull="found"),
     G("C13", "tr::Transform.remove_mark.iteratee", "stmt", r"^found = m$", ["m['step'] == step - 1", "style.eq(m['style'])"], "a matched range is extended only from the directly preceding inline node and for an equal mark (type and attributes)"),
     G("C13", "tr::Transform.clear_incompatible", "call", r"^repl_steps\.append\(ReplaceStep\(cur, end, Slice\.empty\)\)$", ["not allowed"], "only children the new type cannot hold are deleted"),
     G("C13", "tr::Transform.clear_incompatible", "call", r"^self\.step\(RemoveMarkStep\(cur, end, child\.marks\[j\]\)\)$", ["allowed", "not parent_type.allows_mark_type(child.marks[j].type)"], "only marks the new parent type forbids are removed"),
@@ -161,7 +162,8 @@ TABLE: list = [
     G("C14", "mark::Mark.add_to_set", "call", r"^copy\.append\(other\)$", ["not self.type.excludes(other.type)", "not other.type.excludes(self.type)", "not self.eq(other)", "copy is not None"], "exactly the marks the new one does not exclude are kept"),
     G("C14", "mark::Mark.add_to_set", "stmt", r"^placed = True$", ["not placed", "other.type.rank > self.type.rank", "not self.type.excludes(other.type)"], "the new mark is inserted once, before the first kept mark of higher rank"),
     F("C14", "mark::Mark.add_to_set", "ret", r".", r"^(set|copy)$", "add_to_set returns the unchanged input or the single-pass copy (every element was examined)"),
-    G("C14", "mark::Mark.add_to_set", "ret", r"^copy$", ["re:falsy\\(placed\\)|truthy\\(placed\\)"], "the copy is returned after the loop", min=1) if False else G("C14", "mark::Mark.add_to_set", "call", r"^copy\.append\(self\)$", ["not placed"], "the new mark is placed exactly once", min=2),
+    G("C14", "mark::Mark.add_to_set", "call", r"^copy\.append\(self\)$", ["not placed"], "the new mark is placed exactly once", min=2),
+    F("C14", "mark::Mark.add_to_set", "call", r"^copy\.(extend|append|insert)\(", r"^copy\.append\((self|other)\)$", "every mark enters the result one at a time, after its own exclusion test (no bulk copy of unexamined marks)", min=3),
     G("C14", "schema::NodeType.allowed_marks", "call", r"^copy\.append\(mark\)$", ["self.allows_mark_type(mark.type)", "copy is not None"], "exactly the allowed marks are kept, in order"),
     G("C14", "schema::NodeType.allowed_marks", "stmt", r"^copy = marks\[0:i\]$", ["not self.allows_mark_type(mark.type)", "copy is None"], "the copy starts at the first disallowed mark"),
     G("C14 C07", "schema::NodeType.allows_marks", "ret", r"^True$", ["self.mark_set is None"], "all marks are allowed only when the node type declares no restriction"),
@@ -173,7 +175,7 @@ TABLE: list = [
     G("C14", "schema::Schema.__init__", "stmt", r"^type\.mark_set = gather_marks\(", ["mark_expr", "mark_expr != '_'"], "an explicit marks expression is resolved through gather_marks"),
     G("C14", "schema::Schema.__init__", "stmt", r"^type\.mark_set = \[\]$", [["mark_expr == ''", "not type.inline_content"]], "no marks are allowed for an empty marks expression or block content"),
     G("C14", "schema::Schema.__init__", "expr", r"^\[mark\]$", ["excl is None"], "a mark excludes itself by default", exact=True),
-    G("C14", "schema::Schema.__init__", "expr", r"^\[\]$", ["excl == ''", "excl is not None"], "an empty excludes declaration excludes nothing", min=1, max=3) if False else G("C14", "schema::Schema.__init__", "expr", r"^gather_marks\(self, excl\.split\(' '\)\)$", ["excl is not None", "excl != ''"], "an explicit excludes declaration is resolved through gather_marks"),
+    G("C14", "schema::Schema.__init__", "expr", r"^gather_marks\(self, excl\.split\(' '\)\)$", ["excl is not None", "excl != ''"], "an explicit excludes declaration is resolved through gather_marks"),
     G("C14", "schema::gather_marks", "call", r"^found\.append\(mark\)$", [["mark", "name == '_'", "mark.spec.get('group')"]], "a name selects the mark of that name, all marks for '_', or the marks of that group", min=2),
     # ------------------------------------------------ model/content.py (C06 C15)
     Pass(("C06",), "prosemirror/model/content.py::ContentMatch.parse", "ret", r"^match$", r"check_for_dead_ends\(match, stream\)", "every compiled matcher is checked for dead ends before it is returned"),
@@ -203,7 +205,7 @@ TABLE: list = [
     G("C20", "diff::find_diff_start", "stmt", r"^inner = find_diff_start\(", [["child_a.content.size", "child_b.content.size"]], "descent happens whenever either child has content", forbid=("child_a.content.size", "child_b.content.size")),
     G("C20", "diff::find_diff_end", "stmt", r"^inner = find_diff_end\(", [["child_a.content.size", "child_b.content.size"]], "descent happens whenever either child has content", forbid=("child_a.content.size", "child_b.content.size")),
     G("C20", "diff::find_diff_end", "stmt", r"^continue$", ["child_a == child_b"], "only identical children are skipped without comparison"),
-    G("C20", "diff::find_diff_start", "expr", r"^None$", ["a.child_count == b.child_count", ["a.child_count == i", "b.child_count == i"]], "no difference is reported only when both fragments are exhausted together", min=1, max=1),
+    G("C20", "diff::find_diff_start", "ret", r"^None if a\.child_count == b\.child_count else pos$", [["a.child_count == i", "b.child_count == i"]], "the scan ends (equal iff both are exhausted together) only when one fragment is exhausted"),
     # ------------------------------------------------ model/from_dom.py (C19)
     G("C19", "fdom::NodeContext.apply_pending", "stmt", r"^self\.active_marks = mark\.add_to_set\(self\.active_marks\)$", [["self.type is None", "self.type.allows_mark_type(mark.type)"], "not mark.is_in_set(self.active_marks)"], "a pending mark is activated in a typed context only if that node type allows it"),
     G("C19", "fdom::ParseContext.insert_node", "stmt", r"^marks = mark\.add_to_set\(marks\)$", [["top.type is None", "top.type.allows_mark_type(mark.type)"]], "a node's own marks are kept only where the open node type allows them"),
@@ -211,10 +213,18 @@ TABLE: list = [
     G("C19", "fdom::NodeContext.finish", "stmt", r"^content = content\.append\(", ["not open_end", "self.match is not None"], "every closed context is filled up to a valid end"),
     G("C19", "fdom::ParseContext.insert_node", "call", r"^top\.content\.append\(node\.mark\(marks\)\)$", ["self.find_place(node)"], "every node the parser emits was placed through find_place"),
     # ------------------------------------------------ JSON (C05)
-    G("C05", "repl::Slice.to_json", "expr", r"^self\.open_start$", ["self.open_start > 0"], "openStart is written exactly when it differs from the reader's default 0", exact=True, min=1) if False else G("C05", "repl::Slice.to_json", "stmt", r"^json = \{\*\*json, 'openStart': self\.open_start\}$", ["self.open_start > 0", "self.content.size"], "openStart is written exactly when it differs from the reader's default 0", exact=True),
+    G("C05", "repl::Slice.to_json", "stmt", r"^json = \{\*\*json, 'openStart': self\.open_start\}$", ["self.open_start > 0", "self.content.size"], "openStart is written exactly when it differs from the reader's default 0", exact=True),
     G("C05", "repl::Slice.to_json", "stmt", r"^json = \{\*\*json, 'openEnd': self\.open_end\}$", ["self.open_end > 0", "self.content.size"], "openEnd is written exactly when it differs from the reader's default 0", exact=True),
     G("C05", "rstep::ReplaceStep.to_json", "stmt", r"^json_data = \{\*\*json_data, 'structure': True\}$", ["self.structure"], "the structure flag is written whenever it is set (the reader defaults it to False)", exact=True),
     G("C05", "rstep::ReplaceStep.to_json", "stmt", r"^json_data = \{\*\*json_data, 'slice': self\.slice\.to_json\(\)\}$", ["self.slice.size"], "the slice is written whenever it is non-empty (the reader defaults to Slice.empty)", exact=True),
     G("C05", "rstep::ReplaceAroundStep.to_json", "stmt", r"^json_data = \{\*\*json_data, 'structure': True\}$", ["self.structure"], "the structure flag is written whenever it is set", exact=True),
     G("C05", "rstep::ReplaceAroundStep.to_json", "stmt", r"^json_data = \{\*\*json_data, 'slice': self\.slice\.to_json\(\)\}$", ["self.slice.size"], "the slice is written whenever it is non-empty", exact=True),
+
+    F("C18 C12", "struct::lift_target", "stmt", r"^depth = ", r"^depth = range_\.depth$", "the outward search starts at the range's own depth, so the isolating flag of the range's parent is tested before the search leaves it"),
+    F("C01 C03 C13", "astep::AttrStep.apply", "stmt", r"^updated = ", r"^updated = node\.type\.create\(attrs, None, node\.marks\)$", "the addressed node is rebuilt without content (its children are kept by the open slice; a filling constructor would add content the empty map does not report)"),
+    F("C01 C03 C13", "mstep::AddNodeMarkStep.apply", "stmt", r"^updated = ", r"^updated = node\.type\.create\(node\.attrs, None, self\.mark\.add_to_set\(node\.marks\)\)$", "the addressed node is rebuilt without content and with the mark added through the set algebra"),
+    F("C01 C03 C13", "mstep::RemoveNodeMarkStep.apply", "stmt", r"^updated = ", r"^updated = node\.type\.create\(node\.attrs, None, self\.mark\.remove_from_set\(node\.marks\)\)$", "the addressed node is rebuilt without content and with the mark removed"),
+    F("C01 C03 C13", "astep::AttrStep.apply", "ret", r"^StepResult\.from_replace\(", r"^StepResult\.from_replace\(doc, self\.pos, self\.pos \+ 1, Slice\(Fragment\.from_\(updated\), 0, 0 if node\.is_leaf else 1\)\)$", "a node-level step replaces exactly the node's opening token (pos..pos+1) by an equally sized opening"),
+    F("C01 C03 C13", "mstep::AddNodeMarkStep.apply", "ret", r"^StepResult\.from_replace\(", r"^StepResult\.from_replace\(doc, self\.pos, self\.pos \+ 1, Slice\(Fragment\.from_\(updated\), 0, 0 if node\.is_leaf else 1\)\)$", "a node-level step replaces exactly the node's opening token (pos..pos+1) by an equally sized opening"),
+    F("C01 C03 C13", "mstep::RemoveNodeMarkStep.apply", "ret", r"^StepResult\.from_replace\(", r"^StepResult\.from_replace\(doc, self\.pos, self\.pos \+ 1, Slice\(Fragment\.from_\(updated\), 0, 0 if node\.is_leaf else 1\)\)$", "a node-level step replaces exactly the node's opening token (pos..pos+1) by an equally sized opening"),
 ]
